@@ -106,6 +106,38 @@ def main(tier):
                 ck.violation("R-C13-3", "setup:%s" % probs[0][:50], "src/GMGPolar/setup.cpp", "%s: %s" % (what, "; ".join(probs)))
             else:
                 ck.ok("R-C13-3", what)
+    # ---- R-C13-4: options changed, setup() and solve() again on the same object (the convergence_order loop pattern)
+    ck.rule("R-C13-4", "after an option change, setup();solve() depends on nothing the earlier setup/solve left (levels, right-hand sides, members all STALE)", floor=20)
+    def mk(ext, fmg, L):
+        return {"L": L, "FMG": fmg, "FMG_iterations": 1, "FMG_cycle": 0, "extrapolation": ext, "cycle": 0, "nu1": 1, "nu2": 1,
+                "max_iterations": 1, "abs_tol": True, "rel_tol": True, "exact": True, "norm": 0}
+    As = [(0, False), (3, True), (1, False)]
+    Bs = [(0, False), (3, True), (1, True), (2, False)] if tier != "quick" else [(0, False), (3, True), (1, True)]
+    for (ea, fa), (eb, fb), (la, lb) in itertools.product(As, Bs, ((2, 3), (3, 2), (2, 2))):
+        what = "A(ext=%s FMG=%s L=%d) -> B(ext=%s FMG=%s L=%d)" % (EXT[ea], fa, la, EXT[eb], fb, lb)
+        outs = sr.scenario_resetup(prog, mk(ea, fa, la), mk(eb, fb, lb))
+        for pi, o in enumerate(outs):
+            pk = "%s path%d" % (what, pi)
+            ck.instance("R-C13-4", pk, nontrivial=(pi == 0))
+            probs = []
+            if o.throws:
+                probs.append("throws %s at %s" % (o.throws.what, o.throws.site))
+            for ev in o.events:
+                if ev.kind in ("levels-not-cleared", "level-order", "unallocated", "uninitialised-operator", "oob-level", "wrong-level"):
+                    probs.append(repr(ev))
+            for site, cond, outc, fnq in o.choice_log:
+                if sr.scalar_has_stale(cond):
+                    probs.append("branch at %s (in %s) decided by data of the earlier run: %s" % (site, fnq, show(cond)[:200]))
+                    break
+            if o.solution is not None and has_kind(o.solution, ("stale", "clob")):
+                probs.append("solution depends on %s" % ", ".join(sorted(set(show(a) for a in has_kind(o.solution, ("stale", "clob")))))[:200])
+            for name, v in list(o.accessors.items()) + [("numberOfIterations", o.iterations)]:
+                if sr.scalar_has_stale(v):
+                    probs.append("%s reports %s" % (name, sr.describe(v)[:120]))
+            if probs:
+                ck.violation("R-C13-4", "resetup:%s" % probs[0].split(" ")[0][:40], "src/GMGPolar/setup.cpp", "%s: %s" % (pk, probs[0]))
+            else:
+                ck.ok("R-C13-4", pk)
     ck.extra["modes"] = n_modes
     ck.extra["paths"] = n_paths
     return ck.finish(
